@@ -144,6 +144,16 @@ public:
 
   void set_done() noexcept { unifex::set_done(std::move(receiver_)); }
 
+  template(typename CPO, typename Self)  //
+      (requires is_receiver_query_cpo_v<CPO> AND same_as<
+          Self,
+          type>)  //
+      friend auto tag_invoke(CPO cpo, const Self& self) noexcept(
+          std::is_nothrow_invocable_v<CPO, const Receiver&>)
+          -> std::invoke_result_t<CPO, const Receiver&> {
+    return cpo(self.receiver_);
+  }
+
 private:
   Integral count_;
   Receiver receiver_;
